@@ -681,9 +681,37 @@ Fixpoint pump (fuel : nat) (c : ctl) (si sr : sst) (qi qr : list msg) (n : N) : 
 
 Definition FUEL : nat := 300.
 
-Definition sym_run (c : ctl) : result :=
-  let '(si, out) := initiate_pairing c st_init in
-  pump FUEL c si st_init out [] 0.
+(** A pairing procedure started from given states of the two stacks. *)
+Definition sym_run_from (si sr : sst) (c : ctl) : result :=
+  let '(si1, out) := initiate_pairing c si in
+  pump FUEL c si1 sr out [] 0.
+
+Definition sym_run (c : ctl) : result := sym_run_from st_init st_init c.
+
+(** ---- sequences of pairings through the SAME two stacks ----
+    What survives [reset_state()] (called first by [initiate_pairing] and [on_pairing_request]) and
+    can therefore reach the next procedure: the SMP state code, the passkey counter, the key
+    registered for the connection, the LinkLayer's crypto manager ([LinkLayer.__llcm], ONE attribute
+    for all connection handles), the encrypted flag.  The database and the list of set_encryption
+    calls are logs: each procedure is observed by what it appends. *)
+Definition start_state (st cnt : N) (enckey llcm : option term) (encrypted : bool) : sst :=
+  {| s_state := st; s_fail := None; s_exc := false; s_method := None;
+     s_tk := zero16; s_stk := zero16; s_ltk := None; s_rand := None; s_ediv := None;
+     s_irk := None; s_csrk := None; s_mackey := None; s_haskey := false; s_shared := false;
+     s_iconf := None; s_irand := None; s_rconf := None; s_rrand := None;
+     s_cnt := cnt; s_nonce := 0; s_peer := false;
+     s_p_ltk := None; s_p_rand := None; s_p_ediv := None; s_p_irk := None; s_p_addr := false; s_p_csrk := None;
+     s_enckey := enckey; s_llcm := llcm; s_setenc := []; s_encrypted := encrypted; s_db := [] |}.
+
+(** the next procedure runs on the same connection, or on a new connection handle of the same stacks
+    (new L2CAP/SMP instances and connection record, same LinkLayer) *)
+Inductive mode := SameConn | NewConn.
+
+Definition carry (m : mode) (s : sst) : sst :=
+  match m with
+  | SameConn => start_state (s_state s) (s_cnt s) (s_enckey s) (s_llcm s) (s_encrypted s)
+  | NewConn => start_state 0 1 None (s_llcm s) false
+  end.
 
 (** ---- outcomes ---- *)
 Definition success (s : sst) : bool := (s_state s =? 255) && negb (s_exc s) && negb (isSome (s_fail s)).
@@ -735,8 +763,16 @@ Definition control_of (pi pr : params) (sc : script) : ctl :=
 Definition run (pi pr : params) (sc : script) : result := sym_run (control_of pi pr sc).
 
 (** ---- concretisation of atoms (for the correspondence with the implementation) ---- *)
+(** [e_bv]: generated items forced to a boundary value: (side, purpose, byte) = every byte of that
+    item is [byte] (purposes 1 LTK, 2 RAND, 3 IRK, 4 CSRK) *)
 Record env := { e_addr_i : list N; e_atype_i : N; e_addr_r : list N; e_atype_r : N;
-                e_skdm : N; e_skds : N; e_ediv_i : N; e_ediv_r : N }.
+                e_skdm : N; e_skds : N; e_ediv_i : N; e_ediv_r : N; e_bv : list (bool * N * N) }.
+
+Fixpoint bv_lookup (l : list (bool * N * N)) (s : bool) (p : N) : option N :=
+  match l with
+  | [] => None
+  | (s', p', b) :: r => if Bool.eqb s s' && N.eqb p p' then Some b else bv_lookup r s p
+  end.
 
 Definition b2n (b : bool) : N := if b then 1 else 0.
 Definition auth_byte (p : params) : N := b2n (a_bond p) + 4 * b2n (a_mitm p) + 8 * b2n (a_lesc p).
@@ -774,7 +810,17 @@ Definition atom_value (pi pr : params) (sc : script) (e : env) (a k : N) : list 
 Fixpoint conc (pi pr : params) (sc : script) (e : env) (t : term) {struct t} : term :=
   match t with
   | TAtom a k => TBytes (atom_value pi pr sc e a k)
-  | TKey s p => if (if s then a_mks pr else a_mks pi) =? 16 then TRnd s p 0 else TPad (TRnd s p 0)
+  | TKey s p =>
+      let mks := if s then a_mks pr else a_mks pi in
+      match bv_lookup (e_bv e) s p with
+      | Some b => TBytes (repeat b (N.to_nat mks) ++ repeat 0 (16 - N.to_nat mks))
+      | None => if mks =? 16 then TRnd s p 0 else TPad (TRnd s p 0)
+      end
+  | TRnd s p n =>
+      match bv_lookup (e_bv e) s p with
+      | Some b => TBytes (repeat b (if p =? 2 then 8%nat else N.to_nat (if s then a_mks pr else a_mks pi)))
+      | None => t
+      end
   | TRev x => trev (conc pi pr sc e x)
   | TPad x => TPad (conc pi pr sc e x)
   | TFun f l => TFun f (map (conc pi pr sc e) l)
@@ -808,7 +854,7 @@ Fixpoint list_eqb {A} (e : A -> A -> bool) (a b : list A) : bool :=
 Definition pair_eqb (a b : term * term) : bool := term_eqb (fst a) (fst b) && term_eqb (snd a) (snd b).
 
 (** components of the comparison model <-> implementation (numbered for diagnostics) *)
-Definition side_diff (pi pr : params) (sc : script) (e : env) (s : sst) (o : obs) : list N :=
+Definition side_diff (cmp_key : bool) (pi pr : params) (sc : script) (e : env) (s : sst) (o : obs) : list N :=
   let cc := conc pi pr sc e in
   (if N.eqb (s_state s) (o_state o) then [] else [1])
   ++ (if opt_eqb N.eqb (s_fail s) (o_fail o) then [] else [2])
@@ -816,22 +862,37 @@ Definition side_diff (pi pr : params) (sc : script) (e : env) (s : sst) (o : obs
   ++ (if opt_eqb N.eqb (s_method s) (o_method o) then [] else [4])
   ++ (if term_eqb (cc (s_stk s)) (o_stk o) then [] else [5])
   ++ (if opt_eqb term_eqb (option_map cc (s_ltk s)) (o_ltk o) then [] else [6])
-  ++ (if opt_eqb term_eqb (option_map cc (s_enckey s)) (o_enckey o) then [] else [7])
+  ++ (if negb cmp_key || opt_eqb term_eqb (option_map cc (s_enckey s)) (o_enckey o) then [] else [7])
   ++ (if list_eqb pair_eqb (map (fun p => (cc (fst p), cc (snd p))) (s_setenc s)) (o_setenc o) then [] else [8])
   ++ (if list_eqb obs_db_eqb (map (conc_db pi pr sc e) (s_db s)) (o_db o) then [] else [9]).
 
 Definition case_t := (params * params * script * env * (list N * list N * bool) * obs * obs)%type.
 
-Definition pair_diff (c : case_t) : list N :=
+(** one procedure from given model states; the registered link key is compared when it is this
+    procedure's (first procedure, or the side succeeded) *)
+Definition run_diff (first : bool) (si sr : sst) (c : case_t) : list N * result :=
   let '(pi, pr, sc, e, (preq, pres, quiet), oi, orr) := c in
-  let r := run pi pr sc in
-  (if bytes_eqb preq (preq_bytes pi) then [] else [20])
-  ++ (if bytes_eqb pres (pres_bytes pi pr) then [] else [21])
-  ++ (if Bool.eqb quiet (r_quiet r) then [] else [22])
-  ++ side_diff pi pr sc e (r_i r) oi
-  ++ map (fun x => 100 + x) (side_diff pi pr sc e (r_r r) orr).
+  let r := sym_run_from si sr (control_of pi pr sc) in
+  ((if bytes_eqb preq (preq_bytes pi) then [] else [20])
+   ++ (if bytes_eqb pres (pres_bytes pi pr) then [] else [21])
+   ++ (if Bool.eqb quiet (r_quiet r) then [] else [22])
+   ++ side_diff (first || success (r_i r)) pi pr sc e (r_i r) oi
+   ++ map (fun x => 100 + x) (side_diff (first || success (r_r r)) pi pr sc e (r_r r) orr), r).
 
+Definition pair_diff (c : case_t) : list N := fst (run_diff true st_init st_init c).
 Definition check_pair (c : case_t) : bool := match pair_diff c with [] => true | _ => false end.
+
+(** a sequence of procedures through the same two stacks: (mode, case) list *)
+Fixpoint seq_diff (k : N) (first : bool) (si sr : sst) (l : list (mode * case_t)) : list N :=
+  match l with
+  | [] => []
+  | (m, c) :: rest =>
+      let '(d, r) := run_diff first (carry m si) (carry m sr) c in
+      map (fun x => 1000 * k + x) d ++ seq_diff (k + 1) false (r_i r) (r_r r) rest
+  end.
+
+Definition check_seq (l : list (mode * case_t)) : bool :=
+  match seq_diff 0 true st_init st_init l with [] => true | _ => false end.
 
 (** ---- the finite domain of controls, and the boolean forms of the theorems ---- *)
 Definition script_t := (bool * bool * bool * N * bool)%type.   (* pin_eq, nc_i, nc_r, fdb, pk_eq *)
@@ -922,8 +983,7 @@ Definition keys_ok (c : ctl) (r : result) : bool :=
 Definition fail_is (code : N) (s : sst) : bool := failure s && opt_eqb N.eqb (s_fail s) (Some code).
 
 (** everything the theorems need about one control, evaluated on one run *)
-Definition chk_all (c : ctl) : bool :=
-  let r := sym_run c in
+Definition chk_result (c : ctl) (r : result) : bool :=
   let ok := both success r in
   r_quiet r && (r_steps r <? 250)
   && negb (s_exc (r_i r)) && negb (s_exc (r_r r))
@@ -937,4 +997,21 @@ Definition chk_all (c : ctl) : bool :=
   && implb' (negb (is_oob_method (c_method c)) && honest c) ok
   && implb' (negb (honest c)) (both failure r).
 
+Definition chk_all (c : ctl) : bool := chk_result c (sym_run c).
+
 Definition wf_params (p : params) : Prop := a_iocap p < 5.
+
+(** a sequence of pairing procedures *)
+Definition step_t := (mode * params * params * script)%type.
+
+Fixpoint run_seq (si sr : sst) (l : list step_t) : list (ctl * result) :=
+  match l with
+  | [] => []
+  | (m, pi, pr, sc) :: rest =>
+      let c := control_of pi pr sc in
+      let r := sym_run_from (carry m si) (carry m sr) c in
+      (c, r) :: run_seq (r_i r) (r_r r) rest
+  end.
+
+(** states from which a procedure can start: idle or done, nothing raised *)
+Definition startable (s : sst) : Prop := (s_state s = 0 \/ s_state s = 255) /\ s_exc s = false.
